@@ -3,12 +3,12 @@
 package ws
 
 import (
-	"strings"
 	"bytes"
 	"crypto/sha1"
 	"encoding/base64"
 	"io"
 	"net"
+	"strings"
 	"time"
 )
 
@@ -117,11 +117,11 @@ func vHeaderEq(a, b Header) bool {
 }
 
 type vConn struct {
-	in     []byte
-	pos    int
-	out    []byte
-	one    bool
-	cutErr bool
+	in          []byte
+	pos         int
+	out         []byte
+	one         bool
+	cutErr      bool
 	endWithData bool // report the end of the stream together with the last bytes
 	lines       bool // deliver one line (up to and including LF) per Read
 }
